@@ -361,15 +361,16 @@ def close_once_rule(rep: Report, prog: Program) -> None:
             return None
         if nm == "self._transmit_reconfig":
             return None
-        if nm == "deque" and not call.args:
-            return deque()
+        if nm == "deque":
+            return deque(*[ev.ev(a) for a in call.args])
         return NotImplemented
     for established in (True, False):
         for state in ("connecting", "open", "closing", "closed"):
-            ch = SimpleNamespace(id=5, readyState=state)
+            ch = SimpleNamespace(id=5, readyState=state, negotiated=False, label="x", protocol="", ordered=True, maxRetransmits=None, maxPacketLifeTime=None, bufferedAmount=0)
             st = SimpleNamespace(ESTABLISHED="ESTABLISHED", CLOSED="CLOSED")
             me = SimpleNamespace(_association_state="ESTABLISHED" if established else "CLOSED", State=st, _reconfig_queue=[5] if state == "closing" and established else [],
-                                 _data_channel_queue=deque(), _data_channels={5: ch} if state != "closed" else {})
+                                 _data_channel_queue=deque(), _data_channels={5: ch} if state != "closed" else {}, _outbound_stream_seq={}, _inbound_streams={}, _data_channel_id=1,
+                                 _reconfig_request=None)
             before = list(me._reconfig_queue)
             ev = Evaluator(prog, fi.module, fi.cls, {"self": me, "channel": ch}, hk)
             try:
@@ -381,7 +382,9 @@ def close_once_rule(rep: Report, prog: Program) -> None:
                 rep.fail(mk_finding(prog, PROP, RULE, fi, getattr(ex, "node", None), f"close() on a channel that is {state} ({'established' if established else 'no'} association) raises {ex.name}", construct=f"close {state} raises"))
                 continue
             except Unknown as ex:
-                raise AnalysisError(f"{RULE}: cannot evaluate _data_channel_close: {ex}")
+                # (a supplementary evaluation on a minimal stand-in object: code that needs more of the transport than the stand-in has is left to the lifecycle rules)
+                rep.ok(RULE, f"close() on a channel that is {state}: not decided ({str(ex)[:60]})", nontrivial=False)
+                continue
             what = f"close() on a channel that is {state}, association {'established' if established else 'not established'}"
             if state in ("closing", "closed"):
                 ok = me._reconfig_queue == before and ch.readyState == state
